@@ -633,6 +633,23 @@ def createFromPep508L (text : List Char) : PyM Dep := do
 
 def createFromPep508 (text : String) : PyM Dep := createFromPep508L text.toList
 
+/-- `Dependency.create_from_pep_508(text)` with the public `parse_requirement` (which converts `RecursionError` into
+`InvalidRequirementError` since repo fix 9ad3a46, see `Req.parseLTop`); the part after it (`fromReq`: the `marker`
+setter calls `convert_markers` → `dnf`) is not guarded in the code either.  Returned values are those of
+`createFromPep508` (`createFromPep508Top_ok_iff`). -/
+def createFromPep508LTop (text : List Char) : PyM Dep := do
+  let req ← Req.parseLTop (stripComment text)
+  fromReq req
+
+def createFromPep508Top (text : String) : PyM Dep := createFromPep508LTop text.toList
+
+theorem createFromPep508Top_ok_iff (text : String) (d : Dep) :
+    createFromPep508Top text = .ok d ↔ createFromPep508 text = .ok d := by
+  unfold createFromPep508Top createFromPep508LTop createFromPep508 createFromPep508L Req.parseLTop
+  cases h : Req.parseL (stripComment text.toList) with
+  | ok r => simp [Req.guardRecursion, bind, Except.bind]
+  | error e => cases e <;> simp [Req.guardRecursion, bind, Except.bind]
+
 /-! ### `Dependency.__eq__` / `__hash__` -/
 
 def rcListEqv : List RC → List RC → Bool
